@@ -120,6 +120,25 @@ pub fn shared<T>(v: T) -> Shared<T> {
     std::rc::Rc::new(std::cell::RefCell::new(v))
 }
 
+thread_local! {
+    static APP_PAUSES: std::cell::Cell<bool> = const { std::cell::Cell::new(false) };
+}
+
+/// Turns the application pause points of the documented call patterns on or off (per thread).
+pub fn set_app_pauses(on: bool) {
+    APP_PAUSES.with(|c| c.set(on));
+}
+
+/// A place where a real application may be slow (awaiting something else between two h3 calls): under
+/// exploration a deviation lets every other task run first. Without it the handler would issue its next call
+/// in the same poll and the states "data buffered in h3, then the peer's RESET/FIN/close arrives, then the
+/// next call" could never be reached.
+pub async fn app_pause() {
+    if APP_PAUSES.with(|c| c.get()) && explore::chooser::active() && explore::choose(2, "app-pause") == 1 {
+        simnet::exec::yield_now().await;
+    }
+}
+
 /// server handler: resolve_request -> recv_data* -> recv_trailers -> (optional) response
 pub async fn server_handler(
     resolver: h3::server::RequestResolver<SimConn, Bytes>,
@@ -146,6 +165,7 @@ pub async fn server_handler(
         o.head_info = format!("{} {} {}", req.method(), req.uri(), headermap_str(req.headers()));
     }
     loop {
+        app_pause().await;
         {
             let mut o = out.borrow_mut();
             o.recv_data_calls += 1;
@@ -168,6 +188,7 @@ pub async fn server_handler(
             }
         }
     }
+    app_pause().await;
     out.borrow_mut().stage = "recv_trailers".into();
     match stream.recv_trailers().await {
         Ok(Some(t)) => out.borrow_mut().trailers = format!("some:{}", headermap_str(&t)),
@@ -214,6 +235,7 @@ pub async fn client_reader(mut stream: CliStream, out: Shared<MsgObs>) {
         }
     }
     loop {
+        app_pause().await;
         {
             let mut o = out.borrow_mut();
             o.recv_data_calls += 1;
@@ -236,6 +258,7 @@ pub async fn client_reader(mut stream: CliStream, out: Shared<MsgObs>) {
             }
         }
     }
+    app_pause().await;
     out.borrow_mut().stage = "recv_trailers".into();
     match stream.recv_trailers().await {
         Ok(Some(t)) => out.borrow_mut().trailers = format!("some:{}", headermap_str(&t)),
